@@ -171,7 +171,12 @@ PROFILES = {
                 cfg(N=2, GenBal=(9, 9), GenVals=gv((1, 8), (2, 8)), MaxVals=2, Kinds={"unjail"}, MaxTx=1, MissOn=True, Window=3, MinSignedNum=1, MinSignedDen=2,
                     MaxHeight=12, JailDur=0, FracDT=1, FracDen=8),
                 cfg(N=1, GenBal=(9,), GenVals=gv((1, 8)), MaxVals=1, Kinds={"unjail"}, MaxTx=1, MissOn=True, Window=7, MinSignedNum=7, MinSignedDen=10,
-                    MaxHeight=20, JailDur=0, FracDT=1, FracDen=8)],
+                    MaxHeight=20, JailDur=0, FracDT=1, FracDen=8),
+                # a window of more than 255 blocks (the index of a window entry is stored as 8 little-endian bytes: key order is
+                # not index order beyond one byte) and no tolerance: many misses are recorded before height start + window,
+                # the first one after it jails and must clear all of them
+                cfg(N=1, GenBal=(9,), GenVals=gv((1, 8)), MaxVals=1, Kinds={"unjail"}, MaxTx=0, MissOn=True, Window=260, MinSignedNum=1, MinSignedDen=1,
+                    MaxHeight=272, JailDur=0, FracDT=0, FracDen=8, Dts={1}, SimDepth=830, SimNumDiv=8, SimOneIn=1, SimMaxBeh=2)],
     },
     "C09": {
         "mc": [cfg(N=2, GenBal=(9, 9), GenVals=gv((1, 4), (2, 2)), MaxVals=2, Kinds={"unjail", "unstake", "stake"}, Amts={2}, MaxTx=2, MissOn=True, EvOn=True, EvPowers={1}, Window=1,
@@ -240,6 +245,10 @@ def parse_beh(out):
 
 def simulate(c, d, seed, size, label):
     sim = dict(c)
+    # a configuration may ask for longer (and fewer) behaviours than the tier's default: python-only keys
+    if "SimDepth" in sim:
+        size = dict(size, depth=sim.pop("SimDepth"), num=max(2, size["num"] // sim.pop("SimNumDiv", 4)), onein=sim.pop("SimOneIn", size["onein"]))
+    sim.pop("SimMaxBeh", None)
     sim.update(Depth=size["depth"], OneIn=size["onein"])
     files = tlagen.model("SIM_" + label, "PosmintSim", sim, spec="SimSpec", constraints=["Emit"])
     res = common.run_tlc("SIM_" + label, "SIM_%s.cfg" % label, d, timeout=size["simt"], files=files,
@@ -314,8 +323,11 @@ def run_real(c, behs, d, seed, label, rc=None):
     return tr
 
 
+PYKEYS = ("SimDepth", "SimNumDiv", "SimOneIn", "SimMaxBeh")
+
+
 def validate(c, tr, d, label, dev=None):
-    tc = dict(c)
+    tc = {k: v for k, v in c.items() if k not in PYKEYS}
     tc["Dev"] = set(ACTIVE_DEV if dev is None else dev)
     tc["TraceFile"] = os.path.basename(tr)
     files = tlagen.model("TR_" + label, "Trace_Posmint", tc, spec="TraceSpec", postcondition="TraceAccepted")
@@ -541,6 +553,8 @@ def run(prop, tier, seed):
                 have = {json.dumps(b) for b in behs}
                 behs += [b for b in more if json.dumps(b) not in have]
             behs = behs[:size["maxbeh"]]
+            if "SimMaxBeh" in c:   # long behaviours: a few of them (three times as many in the thorough tier)
+                behs = behs[:c["SimMaxBeh"] * (3 if tier == "thorough" else 1)]
             if not behs:
                 raise common.ToolError("simulation produced no behaviours")
             lap("simulate")
